@@ -51,18 +51,27 @@ def RepeatPot.new (t : Texture) : Outcome RepeatPot :=
 
 /-! ### One axis of each sampler -/
 
-/-- tex.rs:136 `f32::floor(tc.u()) as i32 as u32 & self.w_mask`. -/
-def repeatAxis (mask : Nat) (x : UInt32) : Nat :=
-  i32ToU32 (toI32Sat (floor x)) &&& mask
+/-- tex.rs:136 `f32::floor(tc.u()) as i32 as u32 & self.w_mask`, with `math::float::f32::floor` of
+the configured back end as a parameter (std / libm: the exact floor; no fp feature: `fallback::floor`;
+mm: the adapter's guarded micromath floor). -/
+def repeatAxisF (floorF : UInt32 → UInt32) (mask : Nat) (x : UInt32) : Nat :=
+  i32ToU32 (toI32Sat (floorF x)) &&& mask
+
+/-- The std build (what `./check C12` compiles): the exact floor. -/
+def repeatAxis (mask : Nat) (x : UInt32) : Nat := repeatAxisF floor mask x
 
 /-- tex.rs:172 `f32::floor(tc.u().clamp(0.0, hi)) as u32`, with the upper clamp bound given. -/
-def clampAxisHi (hi x : UInt32) : Outcome Nat :=
+def clampAxisHiF (floorF : UInt32 → UInt32) (hi x : UInt32) : Outcome Nat :=
   match clamp x 0 hi with
   | .panic s => .panic s
-  | .ok c => .ok (toU32Sat (floor c))
+  | .ok c => .ok (toU32Sat (floorF c))
+
+def clampAxisHi (hi x : UInt32) : Outcome Nat := clampAxisHiF floor hi x
 
 /-- tex.rs:172 with `hi = tex.w - 1.0`. -/
-def clampAxis (wf x : UInt32) : Outcome Nat := clampAxisHi (sub wf one) x
+def clampAxisF (floorF : UInt32 → UInt32) (wf x : UInt32) : Outcome Nat := clampAxisHiF floorF (sub wf one) x
+
+def clampAxis (wf x : UInt32) : Outcome Nat := clampAxisF floor wf x
 
 /-- tex.rs:214 `tc.u() as u32`. -/
 def onceAxis (x : UInt32) : Nat := toU32Sat x
@@ -70,17 +79,24 @@ def onceAxis (x : UInt32) : Nat := toU32Sat x
 /-! ### Absolute-coordinate entry points -/
 
 /-- tex.rs:128-139 `SamplerRepeatPot::sample_abs`. -/
-def repeatSampleAbs (s : RepeatPot) (t : Texture) (u v : UInt32) : Outcome (Nat × Nat) :=
-  index t (repeatAxis s.wMask u) (repeatAxis s.hMask v)
+def repeatSampleAbsF (floorF : UInt32 → UInt32) (s : RepeatPot) (t : Texture) (u v : UInt32) :
+    Outcome (Nat × Nat) :=
+  index t (repeatAxisF floorF s.wMask u) (repeatAxisF floorF s.hMask v)
 
-/-- tex.rs:166-175 `SamplerClamp::sample_abs`. -/
-def clampSampleAbs (t : Texture) (u v : UInt32) : Outcome (Nat × Nat) :=
-  match clampAxis t.w u with
+def repeatSampleAbs (s : RepeatPot) (t : Texture) (u v : UInt32) : Outcome (Nat × Nat) :=
+  repeatSampleAbsF floor s t u v
+
+/-- tex.rs:166-181 `SamplerClamp::sample_abs` (after fix 5063a3c): the float clamp, then the integer
+guard `u.min(data.width().saturating_sub(1))`, because `tex.w - 1.0` is not exact beyond 2^24. -/
+def clampSampleAbsF (floorF : UInt32 → UInt32) (t : Texture) (u v : UInt32) : Outcome (Nat × Nat) :=
+  match clampAxisF floorF t.w u with
   | .panic s => .panic s
   | .ok iu =>
-    match clampAxis t.h v with
+    match clampAxisF floorF t.h v with
     | .panic s => .panic s
-    | .ok iv => index t iu iv
+    | .ok iv => index t (min iu (t.dw - 1)) (min iv (t.dh - 1))
+
+def clampSampleAbs (t : Texture) (u v : UInt32) : Outcome (Nat × Nat) := clampSampleAbsF floor t u v
 
 /-- tex.rs:208-223 `SamplerOnce::sample_abs`: `tc.u() as u32`, two `debug_assert!`s, then the index. -/
 def onceSampleAbs (t : Texture) (u v : UInt32) : Outcome (Nat × Nat) :=
